@@ -75,18 +75,27 @@ Theorem C13_unlink_sep_partial : forall h a b h' a', hwf h -> swf h a -> swf h b
 Proof. exact unlink_lemma. Qed.
 Print Assumptions C13_unlink_sep_partial.
 
+(* ... and its derived-flow views: unlink gives the indexer a new empty view dict, so the next imass wraps the
+   stream's own (new) rows and no longer the rows of a former partner *)
+Theorem C13_unlink_resets_view : forall pk mw st i st' s,
+  nth_error (ss st) i = Some s -> step pk mw st (OUnlink i) = (st', None) ->
+  view_of st' (imol s) = None /\ (exists a, nth_error (ss st') i = Some a /\ imol a = imol s) /\
+  snd (by_mass st' s) = data_rows (hp st') s.
+Proof. exact unlink_view. Qed.
+Print Assumptions C13_unlink_resets_view.
+
 (* the full statement: after unlink, stream i shares nothing with ANY other stream object of the store *)
 Definition C13_unlink_sep_statement : Prop :=
-  forall pk st i j st' a b, hwf (hp st) -> Forall (swf (hp st)) (ss st) -> i <> j ->
-    step pk st (OUnlink i) = (st', None) -> nth_error (ss st') i = Some a -> nth_error (ss st') j = Some b ->
+  forall pk mw st i j st' a b, hwf (hp st) -> Forall (swf (hp st)) (ss st) -> i <> j ->
+    step pk mw st (OUnlink i) = (st', None) -> nth_error (ss st') i = Some a -> nth_error (ss st') j = Some b ->
     disjoint (footprint (hp st') a) (footprint (hp st') b).
 
 (* ... is refuted by the code as it is: a proxy holds the same indexer OBJECT, and unlink replaces the data and the
    phase box inside that object, so stream and proxy keep sharing the flows (and the phase) *)
 Definition wit_ops : list op :=
   [ONewS (IdName 1) 0 3 [1%Q; 0%Q; 2%Q] (300%Q) (101325%Q) 0%Q []; OProxy 0].
-Definition wit_state : state := fst (run PK init wit_ops).
-Definition wit_after : state := fst (step PK wit_state (OUnlink 0)).
+Definition wit_state : state := fst (run PK MWS init wit_ops).
+Definition wit_after : state := fst (step PK MWS wit_state (OUnlink 0)).
 Definition dflt : stream := mkstream 0 0 0%Q [] IdNone 0.
 Theorem C13_unlink_sep_refuted : ~ C13_unlink_sep_statement.
 Proof.
@@ -94,11 +103,11 @@ Proof.
   assert (W : hwf (hp wit_state)) by (apply hwfb_ok; vm_compute; reflexivity).
   assert (F : Forall (swf (hp wit_state)) (ss wit_state)).
   { apply Forall_forall. intros x Hx. vm_compute in Hx. destruct Hx as [<-|[<-|[]]]; apply swfb_ok; vm_compute; reflexivity. }
-  assert (E : step PK wit_state (OUnlink 0) = (wit_after, None)) by (vm_compute; reflexivity).
+  assert (E : step PK MWS wit_state (OUnlink 0) = (wit_after, None)) by (vm_compute; reflexivity).
   assert (N : 0 <> 1) by discriminate.
   assert (A : nth_error (ss wit_after) 0 = Some (nth 0 (ss wit_after) dflt)) by (vm_compute; reflexivity).
   assert (B : nth_error (ss wit_after) 1 = Some (nth 1 (ss wit_after) dflt)) by (vm_compute; reflexivity).
-  pose proof (H PK wit_state 0 1 wit_after _ _ W F N E A B) as X.
+  pose proof (H PK MWS wit_state 0 1 wit_after _ _ W F N E A B) as X.
   apply (X 3); vm_compute; auto.
 Qed.
 Print Assumptions C13_unlink_sep_refuted.
@@ -151,7 +160,7 @@ Definition ex_ops : list op :=
    ONewM (IdName 2) 0 [2; 3] [(2, [0%Q; 4%Q; 0%Q]); (3, [(1 # 2)%Q; 0%Q; 0%Q])] (350%Q) (200000%Q) 0%Q [];
    ONewS (IdName 3) 0 2 [0%Q; 3%Q; 0%Q] (310%Q) (101325%Q) 0%Q [];
    ONewM (IdName 4) 0 [2; 3] [(3, [1%Q; 1%Q; 0%Q])] (320%Q) (101325%Q) 0%Q []].
-Definition ex_state : state := fst (run PK init ex_ops).
+Definition ex_state : state := fst (run PK MWS init ex_ops).
 Definition ex_s (i : nat) : stream := nth i (ss ex_state) (mkstream 0 0 0%Q [] IdNone 0).
 
 Example C13_ex_wellformed : hwf (hp ex_state) /\ Forall (swf (hp ex_state)) (ss ex_state).
@@ -179,7 +188,7 @@ Qed.
 
 (* a mutation through a flow proxy IS visible in the original (the sharing theorems are not about an empty set) *)
 Example C13_ex_flow_proxy_visible :
-  let '(st1, _) := run PK ex_state [OFlowProxy 0; OSetFlow 4 0 1 (7%Q)] in
+  let '(st1, _) := run PK MWS ex_state [OFlowProxy 0; OSetFlow 4 0 1 (7%Q)] in
   o_rows (observe (hp st1) (nth 0 (ss st1) (ex_s 0)) []) = [[1%Q; 7%Q; 2%Q]].
 Proof. vm_compute. reflexivity. Qed.
 
@@ -193,10 +202,18 @@ Qed.
 
 (* other-package copy_like and reduce on reachable states *)
 Example C13_ex_other_package_and_reduce :
-  let '(st1, es) := run PK ex_state [ONewS (IdName 5) 1 3 [0%Q; 0%Q; 5%Q; 0%Q] (300%Q) (101325%Q) 0%Q [];
+  let '(st1, es) := run PK MWS ex_state [ONewS (IdName 5) 1 3 [0%Q; 0%Q; 5%Q; 0%Q] (300%Q) (101325%Q) 0%Q [];
                                       OCopyLike 4 0; OReduce 0; OReduce 1] in
   es = [None; None; None; None] /\
   o_rows (observe (hp st1) (nth 4 (ss st1) dflt) []) = [[2%Q; 1%Q; 0%Q; 0%Q]] /\
   obs_plus (hp st1) (nth 5 (ss st1) dflt) = obs_plus (hp st1) (nth 0 (ss st1) dflt) /\
   obs_plus (hp st1) (nth 6 (ss st1) dflt) = obs_plus (hp st1) (nth 1 (ss st1) dflt).
+Proof. vm_compute. repeat split; reflexivity. Qed.
+
+(* the view layer is exercised: a view created while linked reads the partner's rows, and unlink resets it *)
+Example C13_ex_view_after_unlink :
+  let '(st1, es) := run PK MWS ex_state [OLink 0 2 true true true; OReadMass 0; OUnlink 0; OSetFlow 0 0 0 (5%Q)] in
+  es = [None; None; None; None] /\
+  mass_obs PK MWS st1 (nth 0 (ss st1) dflt) = [[80%Q; (3 * 32)%Q; (0 * 8)%Q]] /\
+  mass_obs PK MWS st1 (nth 2 (ss st1) dflt) = [[(0 * 16)%Q; (3 * 32)%Q; (0 * 8)%Q]].
 Proof. vm_compute. repeat split; reflexivity. Qed.
